@@ -529,12 +529,7 @@ class FLAE:
             L *= 1.0/(2.0*np.sqrt(6))
             lam = L[(np.abs(L-1.0)).argmin()]               # Eigenvalue closest to 1
         N = W - lam*np.identity(4)                          # (eq. 54)
-        try:
-            # Return identity quaternion if N is singular matrix
-            _ = np.linalg.inv(N)
-        except np.linalg.LinAlgError:
-            return np.array([1., 0., 0., 0.])
-        # Solve for N and get fundamental solution
+        # Solve for N and get fundamental solution (N is singular by construction: lam is an eigenvalue of W)
         r = np.linalg.solve(N[1:, :-1], N[1:, -1])          # (eq. 55)
         q = np.array([*r, -1])                              # (eq. 58)
         return q / np.linalg.norm(q)
